@@ -105,7 +105,8 @@ def run(tier, seed):
         for v in (exp, exp + 'x', 'x' + exp, exp[:-1] if len(exp) > 1 else 'q', exp.swapcase() if exp.swapcase() != exp else 'zz'):
             t = soup.new_tag('p')
             t.attrs['id'] = v
-            t.attrs['class'] = [v]
+            # a plain-string class attribute (XML parsers, API) is split at CSS white space only
+            t.attrs['class'] = v if (rnd.random() < 0.5 and v and not any(ch in v for ch in ' \t\r\n\f')) else [v]
             t.attrs['a'] = v
             soup.body.append(t)
         e = esc[s]
